@@ -169,7 +169,7 @@ func main() {
 		os.Exit(1)
 	}
 	os.MkdirAll(*out, 0o755)
-	gens := []func(*ctx) (string, string){genLex, genFilters, genFilterFacts, genBanSites, genLockFacts, genEffects, genOSAccess, genSafeSites, genPanicSites}
+	gens := []func(*ctx) (string, string){genLex, genFilters, genFilterFacts, genBanSites, genLockFacts, genEffects, genOSAccess, genLoadSites, genSafeSites, genPanicSites}
 	for _, g := range gens {
 		name, content := g(c)
 		if err := writeIfChanged(filepath.Join(*out, name), content); err != nil {
